@@ -29,7 +29,7 @@ type v06Real struct {
 }
 
 func (r *v06Real) state(mode string, nrep int) (v06State, v06Other) {
-	st := v06State{Streams: v06Streams(r.srv), Groups: v06Groups(r.srv, r.groupIDs), LastPub: 0,
+	st := v06State{Streams: v06Streams(r.srv), Groups: v06Groups(r.srv, r.groupIDs), Grec: v06Grec(r.srv, r.groupIDs), LastPub: 0,
 		Disk: v06Disk(r.cfg.DataDir), Applied: r.srv.getRaft().getCommitIndex(), Mode: mode, Nrep: nrep,
 		Sref: v06Ref{Live: []string{}, Frozen: map[string][]v06Proto{}, Heads: map[string]v06Head{}, Groups: map[string]v06SnapGroup{}}}
 	return st, v06Other{Streams: st.Streams, Groups: st.Groups}
@@ -148,7 +148,7 @@ func TestVerifMetadataRealRestart(t *testing.T) {
 					t.Fatalf("INCONCLUSIVE: stop: %v", err)
 				}
 				// the state of a stopped process: nothing in memory, the directories
-				st := v06State{Streams: map[string]v06Stream{}, Groups: map[string]v12Group{}, Disk: v06Disk(cfg.DataDir),
+				st := v06State{Streams: map[string]v06Stream{}, Groups: map[string]v12Group{}, Grec: map[string]bool{}, Disk: v06Disk(cfg.DataDir),
 					Mode: "replay", Sref: v06Ref{Live: []string{}, Frozen: map[string][]v06Proto{}, Heads: map[string]v06Head{}, Groups: map[string]v06SnapGroup{}}}
 				for _, g := range r.groupIDs {
 					st.Groups[g] = v12Group{}
